@@ -160,6 +160,17 @@ pub fn run(suite: &str, a: &[&str]) -> Option<String> {
                 src(s.bounding_box()), scirc(s.stroke_area()), scirc(s.fill_area()), smap(&nat), smap(&it), spix(&pix)
             )
         }
+        "style_split" => {
+            let st = style_of(a[0], a[1], "1", "1");
+            let r = Rectangle::new(Point::new(5, 7), Size::new(10, 4)).into_styled(st);
+            let c = Circle::new(Point::new(3, 3), 9).into_styled(st);
+            let e = Ellipse::new(Point::new(2, 4), Size::new(6, 11)).into_styled(st);
+            format!(
+                "R {} / {} C {} / {} E {} / {} SBB {}",
+                src(r.stroke_area()), src(r.fill_area()), scirc(c.stroke_area()), scirc(c.fill_area()),
+                sell(e.stroke_area()), sell(e.fill_area()), src(r.bounding_box())
+            )
+        }
         "ell_styled" => {
             let e = Ellipse::new(pt(a[0], a[1]), Size::new(u(a[2]), u(a[3])));
             let s = e.into_styled(style_of(a[4], a[5], a[6], a[7]));
